@@ -8,6 +8,7 @@ import itertools
 from mc import lib, pmodel, space, refdata, refmass
 from checks import c01, c06, c11
 
+CASE_TIMEOUT_S = 300      # wall-clock horizon per state (states of this check bundle many sub-states; generous for loaded machines)
 PROPERTY = 'C07'
 RULE = ('deviation-bounded product (<=3 of 10 slots: residue modifications at first / second / middle / last residue, '
         'N-term, C-term, labile, static rule, isotope label, interval) on 14 (quick) / 40 (thorough) proteins over '
